@@ -4,7 +4,10 @@
 
 package syntax
 
-import "fmt"
+import (
+	"fmt"
+	"sort"
+)
 
 // Kinds of value or reference expressions.  These include all of
 // the builtin types as well as "array" and "null", and for references
@@ -263,8 +266,15 @@ func (e *ArrayExp) FindRefs() []*RefExp {
 
 func (e *MapExp) FindRefs() []*RefExp {
 	var result []*RefExp
-	for _, v := range e.Value {
-		r := v.FindRefs()
+	// Visit the keys in sorted order, so the order of the references (which
+	// shows up in error messages) does not depend on map iteration order.
+	keys := make([]string, 0, len(e.Value))
+	for k := range e.Value {
+		keys = append(keys, k)
+	}
+	sort.Strings(keys)
+	for _, k := range keys {
+		r := e.Value[k].FindRefs()
 		if len(r) > 0 {
 			if len(result) == 0 {
 				result = r
